@@ -109,7 +109,7 @@ type peekCkpt struct {
 }
 
 func runPeek(rc *RunCtx) *Violation {
-	n := simrt.Choose(25)
+	n := simrt.Choose(bound(25, 41))
 	// elision set over the 4-type alphabet plus, sometimes, EOF's own type
 	mask := simrt.Choose(32)
 	if simrt.Choose(4) == 1 {
@@ -183,7 +183,7 @@ func runPeek(rc *RunCtx) *Violation {
 	copies := []*peekCopy{{pl: *pl, raw: 0, lastAny: -1}}
 	var ckpts []peekCkpt
 	var anyCursors []int // every cursor PeekAny ever returned in this run
-	steps := simrt.Choose(61)
+	steps := simrt.Choose(bound(61, 151))
 	var ops []string
 	consumed, restoreAfterConsume, ffOverElided := false, false, false
 
